@@ -83,21 +83,17 @@ ALL_M = ["C04"]
 for f in F:
     if f["rule"] in ("M2", "M3"):
         f["properties"] = sorted(set(f["properties"] + ALL_M))
-for fn, k in [("argmaxDenseTensor", "ArgmaxFlat"), ("argminDenseTensor", "ArgminFlat")]:
-    finding(["C08"], "L1", "tensor.(StdEng).%s@$r.E.%s( ?$t.RequiresIterator()" % (fn, k),
-            "Argmax/Argmin over all axes scans the raw storage window with no layout test: wrong index for views and lazy transposes",
-            "without a test of $t.RequiresIterator()", 38)
 finding(["C10"], "L1", "tensor.(StdEng).denseRepeat@fastCopyDenseRepeat( ?$t.RequiresIterator()", "denseRepeat block-copies from the operand's raw storage without consulting its layout: Repeat(a[:,1:3],1,2) is wrong", "without a test of $t.RequiresIterator()", 32)
 finding(["C10"], "L1", "tensor.(StdEng).denseRepeat@copyDenseSliced( ?$t.RequiresIterator()", "denseRepeat block-copies from the operand's raw storage without consulting its layout", "without a test of $t.RequiresIterator()", 32)
 finding(["C14"], "F1", "tensor.numpyDtypes[Int64]", "Int64 is written as i8, which the reader maps to Int on 64-bit: an int64 tensor read back has dtype int (and ReadNpy then fails)", "Int64->i8->Int", 43)
 finding(["C14"], "F1", "tensor.numpyDtypes[Uint64]", "Uint64 is written as u8, which the reader maps to Uint on 64-bit", "Uint64->u8->Uint", 43)
 finding(["C14"], "F1", "tensor.numpyDtypes[Int32]", "GOARCH=386: Int32 is written as i4, which the reader maps to Int", "Int32->i4->Int", 43)
 finding(["C14"], "F1", "tensor.numpyDtypes[Uint32]", "GOARCH=386: Uint32 is written as u4, which the reader maps to Uint", "Uint32->u4->Uint", 43)
-finding(["C14"], "L1", "tensor.(*Dense).GobEncode@.Encode(&%data) ?$r.IsMaterializable()", "GobEncode of a view writes the whole storage window under the view's shape; GobDecode's sanity check rejects it (expected (3), got 7)", "without a test of $r.IsMaterializable()", 28)
-finding(["C16","C20"], "L3", "tensor.(Float32Engine).Add@V. ⊨ $a.DataOrder().HasSameOrder($b.DataOrder())", "Float32Engine.Add discards prepDataVV's useIter and only tests RequiresIterator: row-major + column-major adds raw storage ([0 4 3 7 6 10])", "goal", 21)
-finding(["C16","C20"], "L3", "tensor.(Float64Engine).Add@V. ⊨ $a.DataOrder().HasSameOrder($b.DataOrder())", "Float64Engine.Add discards prepDataVV's useIter and only tests RequiresIterator: row-major + column-major adds raw storage ([0 4 3 7 6 10])", "goal", 21)
 
 FIXED = [
+ {"property":"C14","commit":"a2e7ce2","rule":"L1","key":"tensor.(*Dense).GobEncode@.Encode(&%data) ?$r.IsMaterializable()","what":"fixed: property=C14 a2e7ce2 GobEncode of a view wrote the whole storage window under the view's shape; GobDecode's sanity check rejected it (expected (3), got 7) (DESIGN finding 28)"},
+ {"property":"C20","commit":"687421a","rule":"L3","key":"tensor.(Float32Engine).Add@V., tensor.(Float64Engine).Add@V. ⊨ $a.DataOrder().HasSameOrder($b.DataOrder())","what":"fixed: property=C20 687421a Float32Engine/Float64Engine.Add added a row-major and a column-major operand position by position ([0 4 3 7 6 10]) (DESIGN finding 21)"},
+ {"property":"C08","commit":"e0ae783","rule":"L1","key":"tensor.(StdEng).argmaxDenseTensor@$r.E.ArgmaxFlat(, tensor.(StdEng).argminDenseTensor@$r.E.ArgminFlat(","what":"fixed: property=C08 e0ae783 Argmax/Argmin over all axes scanned the raw storage window: wrong index for views and lazily transposed tensors (DESIGN finding 38)"},
  {"property":"C16","commit":"a5a4aba","rule":"L3","key":"tensor.Copy@copyDense(%dt, %ts) ⊨ %ts.DataOrder().HasSameOrder(%dt.DataOrder())","what":"fixed: property=C16 a5a4aba Copy between a column-major and a row-major tensor was a raw memcpy: [[0,1,2],[3,4,5]] became [0 3 1 4 2 5] (DESIGN finding 18, Copy part)"},
  {"property":"C16","commit":"15e2b9f","rule":"L4","key":"tensor.ToMat64@mat.NewDense( ?$t.DataOrder().IsColMajor()","what":"fixed: property=C16 15e2b9f ToMat64 handed column-major storage to the row-major mat.Dense (DESIGN finding 18, ToMat64 part)"},
  {"property":"C14","commit":"484f8b3","rule":"L1","key":"tensor.(*Dense).WriteNpy@for ($r.len() > %i) ?$r.RequiresIterator()","what":"fixed: property=C14 484f8b3 WriteNpy emitted Get(0..len) in storage order under a header that declares C order: a column-major, sliced or lazily transposed tensor was read back as different data (DESIGN finding 18, WriteNpy part)"},
